@@ -12,7 +12,12 @@ refuses to dump an instance of a class that is not
 ``open`` unless a fault has been armed for exactly that path and mode.
 """
 import builtins
+import collections
+import datetime
+import decimal
 import errno as _errno
+import fractions
+import pathlib
 import os
 import struct
 
@@ -222,9 +227,36 @@ def install(envmod):
 TS_TAG = '$TS'
 
 
+OBJ_TAG = '$OBJ'
+Score = collections.namedtuple('Score', ['value', 'sigma'])    # a class of "the job's module"
+
+
+def _make_object(kind, arg):
+    """Instances of picklable classes that live outside builtins / numpy / valjean: what the
+    functions of a real job put in their results."""
+    if kind == 'fraction':
+        return fractions.Fraction(arg[0], arg[1])
+    if kind == 'decimal':
+        return decimal.Decimal(arg)
+    if kind == 'timedelta':
+        return datetime.timedelta(seconds=arg)
+    if kind == 'path':
+        return pathlib.PurePosixPath(arg)
+    if kind == 'score':
+        return Score(arg[0], arg[1])
+    if kind == 'ordereddict':
+        return collections.OrderedDict((str(k), k) for k in arg)
+    if kind == 'frozenset':
+        return frozenset(arg)
+    raise ValueError(kind)
+
+
 def materialise(val, status_enum):
-    """Plain case value -> payload object (``('$TS', name)`` -> TaskStatus)."""
+    """Plain case value -> payload object (``('$TS', name)`` -> TaskStatus, ``('$OBJ', kind,
+    arg)`` -> instance of a standard-library / user class)."""
     if isinstance(val, tuple):
+        if len(val) == 3 and isinstance(val[0], str) and val[0] == OBJ_TAG:
+            return _make_object(val[1], val[2])
         if len(val) == 2 and isinstance(val[0], str) and val[0] == TS_TAG \
                 and isinstance(val[1], str) \
                 and val[1] in status_enum.__members__:
